@@ -268,8 +268,37 @@ def r17e(run):
               construct="ignore_errors at parse time", message="BaseParser.__call__ resolves with ignore_errors != False")
 
 
+def r17f(run):
+    """each annotation keeps its own pending reference object: the entry stored for a field is the reference written
+    in that field's annotation (the late rewrite of __forward_value__ is per entry, with that entry's constraints)"""
+    g = run.repo.func("utype.parser.rule", "register_forward_ref")
+    ga = analysis(g)
+    sd = [(n, c) for n, c in ga.all_calls() if call_attr(c) == "setdefault" and "forward_refs" in unparse(c.func.value)]
+    run.floor("R17f", "pending-table stores in register_forward_ref", len(sd), 1)
+    for n, c in sd:
+        tup = c.args[1] if len(c.args) > 1 else None
+        ref_expr = tup.elts[0] if isinstance(tup, ast.Tuple) and tup.elts else None
+        ok = False
+        why = "the stored entry is not (annotation, constraints)"
+        if isinstance(ref_expr, ast.Name):
+            os_ = prov(ga).of_name(n, ref_expr.id)
+            foreign = [o for o in os_ if not (o.kind == "param" and o.text == g.params[0]
+                                              or o.kind == "attr" and o.text.startswith(g.params[0] + ".")
+                                              or o.kind == "call" and any(isinstance(a, ast.Name) and a.id in (g.params[0], "ref")
+                                                                          for a in o.node.args))]
+            ok = not foreign
+            why = "the stored reference can be another pending entry's object: " + ", ".join(
+                f"{o.kind}:{o.text[:40]}" for o in foreign)
+        run.check("R17f", g, "the pending entry holds the reference object of the annotation being registered", ok,
+                  construct="pending entry shares another annotation's reference object",
+                  message=f"register_forward_ref: `{unparse(c)[:70]}`: {why}",
+                  necessity="resolution rewrites ref.__forward_value__ once per pending entry with that entry's "
+                            "constraints; with one object shared by `low: 'Score' = Field(le=10)` and `high: 'Score' = "
+                            "Field(le=20)` the last rewrite wins and both fields lose / swap their constraints", node=c)
+
+
 def check(run):
-    run.rules_run += ["R17a", "R17b", "R17c", "R17d", "R17e"]
+    run.rules_run += ["R17a", "R17b", "R17c", "R17d", "R17e", "R17f"]
     run.explain("C17 (resolution-before-use; equivalence with the direct declaration is value-level and undecided): "
                 "(R17a) resolve_forward_refs unconditionally dominates parse_data / get_params at all five entries; "
                 "(R17b) after a resolution every field (input and output type), the addition type, *args and return "
@@ -282,3 +311,4 @@ def check(run):
     r17c(run)
     r17d(run)
     r17e(run)
+    r17f(run)
